@@ -43,6 +43,7 @@ type run struct {
 	ctx    *hk.Ctx
 	writes [8][]write // per thread slot
 	closed bool
+	l3     *hk.Local // stream 3 bound by the rebind thread
 }
 
 func body(c scen, ctx *hk.Ctx) {
@@ -63,7 +64,7 @@ func body(c scen, ctx *hk.Ctx) {
 			needL2, needL = true, true
 		case t == "r2":
 			needR2, needR = true, true
-		case strings.HasPrefix(t, "w") || t == "unbind-l1" || strings.HasPrefix(t, "rtcp-") || t == "get":
+		case strings.HasPrefix(t, "w") || t == "unbind-l1" || t == "rebind-l1-as-l3" || strings.HasPrefix(t, "rtcp-") || t == "get":
 			needL = true
 		}
 		if strings.HasPrefix(t, "r") && !strings.HasPrefix(t, "rtcp") || t == "unbind-r1" || t == "rtcp-sr" || t == "rtcpw" || t == "get" {
@@ -108,6 +109,10 @@ func body(c scen, ctx *hk.Ctx) {
 	for _, t := range ths {
 		t.Join()
 	}
+	if r.l3 != nil && !r.closed {
+		vsched.Advance(hk.ReportInterval) // a report tick after the rebind
+		vsched.Quiesce()
+	}
 	if !r.closed {
 		if err := s.I.Close(); err != nil {
 			ctx.Fail("C10:close-error", "Close: %v", err)
@@ -117,6 +122,37 @@ func body(c scen, ctx *hk.Ctx) {
 	vsched.AcquireFinished()
 	if ctx.Failed() {
 		return
+	}
+	if r.l3 != nil {
+		// nothing was ever written on stream 3: whatever is reported about it must say so (state of the unbound
+		// stream 1, whose writer was still in use, must not have moved over)
+		for _, rec := range s.T.RTCP {
+			for _, p := range rec.Pkts {
+				if sr, ok := p.(*rtcp.SenderReport); ok && sr.SSRC == r.l3.Info.SSRC && (sr.PacketCount != 0 || sr.OctetCount != 0) {
+					ctx.Fail("C10:state-of-unbound-stream-leaks-into-new-stream", "the sender report of stream 3 counts %d packets / %d octets, nothing was ever written on it (stream 1 was unbound while its writer was in use, stream 3 bound right after)", sr.PacketCount, sr.OctetCount)
+					return
+				}
+			}
+		}
+	}
+	if c.Kind == "nack-generator" && needR && !needR2 {
+		for _, t := range c.Threads {
+			if t == "unbind-r1" {
+				// the only stream was unbound (racing the tick that writes its NACK): what the generator keeps per
+				// stream must be gone, as on an instance that never had a stream
+				fresh, _, err := k.New(c.Variant)
+				if err == nil {
+					fs := hk.NewSession(fresh, nil)
+					fs.BindRTCPWriter()
+					fs.BindRTCPReader()
+					_ = fresh.Close()
+					if got, want := hk.DeepSize(s.I), hk.DeepSize(fresh); got > want {
+						ctx.Fail("C10:per-stream-state-resurrected-after-unbind", "after the only stream was unbound (concurrently with the reporting tick) and the interceptor closed it retains %d bytes, an instance that never had a stream %d", got, want)
+						return
+					}
+				}
+			}
+		}
 	}
 	r.conservation(k)
 }
@@ -202,6 +238,10 @@ func (r *run) thread(slot int, name string) {
 		_, _, _ = rd.Read(buf, nil)
 	case "rtcpw":
 		_, _ = s.RTCPW.Write([]rtcp.Packet{&rtcp.PictureLossIndication{SenderSSRC: 1, MediaSSRC: hk.StreamInfo(false, 1, true).SSRC}}, nil)
+	case "rebind-l1-as-l3":
+		// stream 1 is unbound while its writer may still be in use, and another stream (3) is bound right away
+		s.I.UnbindLocalStream(s.Locals[1].Info)
+		r.l3 = s.NewLocal(3, true)
 	case "unbind-l1":
 		s.I.UnbindLocalStream(s.Locals[1].Info)
 	case "unbind-r1":
@@ -303,6 +343,7 @@ func scenarios(tier string) []scen {
 		S("receiver-report", 2, "r1", "r1b", "close"),
 		S("sender-report", 2, "w1", "w1b", "unbind-l1"),
 		S("sender-report", 2, "w1", "w2", "close"),
+		S("sender-report", 2, "w1c", "rebind-l1-as-l3"),
 		S("twcc-sender", 2, "r1", "r1b", "close"),
 		S("twcc-sender", 2, "r1", "r3"),
 		S("twcc-header-extension", 0, "w1", "w1b", "w3"),
